@@ -19,6 +19,8 @@ import dataclasses
 from typing import Any, Callable, Optional
 
 from sa import consteval
+from sa import ndarr
+from sa.ndarr import NdArr
 from sa import index
 from sa.consteval import EnumVal, Ext, Obj, Ref
 
@@ -152,6 +154,9 @@ class Interp:
     self.ev = ev or consteval.Evaluator(repo)
     self.max_depth = max_depth
     self.max_paths = max_paths
+    self.max_seconds = 90
+    self.max_steps = 400000   # statements per enumerated path: a variant that loops for ever must end as 'not interpretable'
+    self._steps = 0
     self.opaque_calls = opaque_calls or set()
     self.hooks = hooks or {}
     self._decisions: list[bool] = []
@@ -166,12 +171,17 @@ class Interp:
     results: list[Outcome] = []
     prefix: list[bool] = []
     n = 0
+    import time as _time  # pylint: disable=g-import-not-at-top
+    t_end = _time.time() + self.max_seconds
     while True:
       n += 1
       if n > self.max_paths:
         raise NotInterpretable(f'{func.fq}: more than {self.max_paths} paths')
+      if _time.time() > t_end:
+        raise NotInterpretable(f'{func.fq}: path enumeration exceeded {self.max_seconds}s')
       self._decisions = list(prefix)
       self._cursor = 0
+      self._steps = 0
       self.trace = []
       a = _copy.deepcopy(args) if copy_args else list(args)
       k = _copy.deepcopy(kwargs or {}) if copy_args else dict(kwargs or {})
@@ -267,6 +277,9 @@ class Interp:
       self.exec_stmt(st, module, env, depth, func)
 
   def exec_stmt(self, st, module, env, depth, func):
+    self._steps += 1
+    if self._steps > self.max_steps:
+      raise NotInterpretable(f'step budget exceeded (non-terminating loop?) at {module.rel}:{getattr(st, "lineno", 0)}')
     ev = lambda n: self.eval(n, module, env, depth)
     if isinstance(st, ast.Expr):
       if isinstance(st.value, ast.Constant):
@@ -477,6 +490,8 @@ class Interp:
     if f is None:
       return Opaque('binop')
     try:
+      if isinstance(a, NdArr) or isinstance(b, NdArr):
+        return NdArr.broadcast(f, a, b)
       if isinstance(a, NpVec) and isinstance(b, (int, float, list)) and not isinstance(b, bool):
         return a.elementwise(f, b)
       if isinstance(b, NpVec) and isinstance(a, (int, float)) and not isinstance(a, bool):
@@ -543,6 +558,8 @@ class Interp:
       if isinstance(v, Opaque):
         return Opaque('unary')
       if isinstance(node.op, ast.USub):
+        if isinstance(v, NdArr):
+          return v.map(lambda x: -x)
         return -v
       if isinstance(node.op, ast.UAdd):
         return +v
@@ -605,6 +622,13 @@ class Interp:
         except IndexError:
           raise _Raise('IndexError', '', node)
         except TypeError:
+          return Opaque('item')
+      if isinstance(base, NdArr):
+        try:
+          return base.index(key)
+        except IndexError:
+          raise _Raise('IndexError', '', node)
+        except ndarr.NotModelled:
           return Opaque('item')
       return Opaque('item')
     if isinstance(node, ast.Call):
@@ -720,6 +744,18 @@ class Interp:
       return ('method', base, attr)
     if _is_num(base) and attr in ('astype', 'item', 'flatten', 'copy', 'squeeze'):
       return ('method', base, attr)
+    if isinstance(base, NdArr):
+      if attr == 'shape':
+        return base.shape
+      if attr == 'ndim':
+        return base.ndim
+      if attr == 'size':
+        return base.size
+      if attr == 'T':
+        return base.transpose()
+      if attr == 'dtype':
+        return Opaque('dtype')
+      return ('method', base, attr)
     if isinstance(base, Ext):
       return Ext(f'{base.name}.{attr}')
     return Opaque(f'attr.{attr}')
@@ -784,6 +820,7 @@ class Interp:
     if fname == 'dataclasses.replace' and isinstance(args[0], Obj):
       o = _copy.deepcopy(args[0])
       o.fields.update(kwargs)
+      o.touch()
       return o
     if fname == 'frozenset.union':
       try:
@@ -813,6 +850,13 @@ class Interp:
       return Opaque('re')
     if fname.startswith('logging.'):
       return None
+    if fname.split('.')[0] in ('np', 'numpy') and any(isinstance(a, NdArr) for a in args):
+      try:
+        return ndarr.np_call(fname.split('.', 1)[1], args, kwargs)
+      except ndarr.NotModelled:
+        return Opaque(f'call:{fname}')
+      except (ValueError, IndexError, TypeError) as e:
+        raise _Raise(type(e).__name__, str(e), node)
     if fname.split('.')[0] in ('np', 'numpy') and args and all(_is_num(a) for a in args):
       r = _np_scalar(fname.split('.', 1)[1], args)
       if r is not _NO:
@@ -938,7 +982,14 @@ class Interp:
               fields[f.name] = Opaque('field')
           else:
             fields[f.name] = self.eval(d, ci.module, {}, depth)
-      obj = Obj(fq, {n: fields[n] for n in names})
+      nocmp = set()
+      for f in ci.fields:
+        d = f.default
+        if isinstance(d, ast.Call) and ast.unparse(d.func).endswith('field'):
+          for k in d.keywords:
+            if k.arg == 'compare' and isinstance(k.value, ast.Constant) and k.value.value is False:
+              nocmp.add(f.name)
+      obj = Obj(fq, {n: fields[n] for n in names}, nocmp)
       post = ci.methods.get('__post_init__')
       if post is not None:
         self.call_function(post, [obj], {}, depth + 1)
@@ -1064,6 +1115,8 @@ class Interp:
         names.append(repr(x))
     if isinstance(v, Obj):
       return v.cls in names
+    if v is None:
+      return any(n in ('NoneType', 'type(None)') for n in names)
     if isinstance(v, EnumVal):
       return v.cls in names or (v.is_str and 'str' in names)
     py = {'str': str, 'dict': dict, 'list': list, 'int': int, 'bool': bool,
@@ -1117,6 +1170,13 @@ class Interp:
           return getattr(base, attr)(*args, **kwargs)
       if isinstance(base, tuple) and attr in ('index', 'count'):
         return getattr(base, attr)(*args)
+      if isinstance(base, NdArr):
+        try:
+          return ndarr.method(base, attr, args, kwargs)
+        except ndarr.NotModelled:
+          return Opaque(f'method.{attr}')
+        except OverflowError as e:
+          raise _Raise('OverflowError', str(e), node)
       if isinstance(base, NpVec) and attr == 'tolist' and not args:
         return list(base)
       if _is_num(base) and attr == 'astype' and args:
